@@ -74,7 +74,7 @@ func unmarshalR(blob []byte, v reflect.Value /*, path string*/) ([]byte, error) 
 		return nil, io.ErrUnexpectedEOF
 	}
 	size := int(binary.LittleEndian.Uint32(blob))
-	if 4+len(blob) < size {
+	if size > len(blob)-4 {
 		return nil, io.ErrUnexpectedEOF
 	}
 	remainder := blob[4+size:]
